@@ -377,7 +377,58 @@ def termination_probe(case: dict):
         shutil.rmtree(tmp, ignore_errors=True)
 
 
+def session_oracle(case: dict):
+    """several dict files that include ONE file with expressions of its own, read one after the other in one process
+    (read / load / reset in between): every read gives the values of the direct computation"""
+    dictIO = native.dictio()
+    tmp = native.scratch_dir("c05s_")
+    try:
+        for rel, text in case["files"].items():
+            (tmp / rel).write_text(text)
+        for step, (op, name) in enumerate(case["ops"]):
+            try:
+                if op == "reset":
+                    dictIO.SDict().reset()
+                    continue
+                r = dictIO.SDict().load(tmp / name) if op == "load" else dictIO.DictReader.read(tmp / name)
+            except Exception as e:  # noqa: BLE001
+                return ("raises", f"step {step} {op} {name} raised {type(e).__name__}: {e}")
+            got = {k: v for k, v in gen.plain(dict(r)).items() if k in case["expect"][name]}
+            bad = {k: (got.get(k), v) for k, v in case["expect"][name].items() if k not in got or not gen.typed_eq(got.get(k), v)}
+            if bad:
+                return ("value", f"step {step} ({op} {name} after {case['ops'][:step]}): (got, direct computation) per key {bad!r}")
+        return None
+    finally:
+        shutil.rmtree(tmp, ignore_errors=True)
+
+
+def session_case(rng):
+    a, b, c = rng.randrange(2, 9), rng.randrange(2, 9), rng.randrange(2, 9)
+    params = f"p1  {a};\np2  \"$p1 + {b}\";\np3  \"$p2 * {c}\";\np4  $p1;\n"
+    pv = {"p1": a, "p2": a + b, "p3": (a + b) * c, "p4": a}
+    files, expect = {"params": params}, {}
+    for nm in ("caseA", "caseB", "caseC"):
+        n = rng.randrange(1, 7)
+        x = rng.randrange(1, 9)
+        lines, vals = ["#include 'params'", f"{nm}0  {x};"], {f"{nm}0": x}
+        for i in range(1, n + 1):
+            prev = f"{nm}{i - 1}"
+            ref = rng.choice(["p1", "p2", "p3"])
+            k = rng.randrange(1, 5)
+            lines.append(f'{nm}{i}  "${prev} + ${ref} * {k}";')
+            vals[f"{nm}{i}"] = vals[prev] + pv[ref] * k
+        files[nm] = "\n".join(lines) + "\n"
+        expect[nm] = dict(pv, **vals)
+    ops = []
+    for _ in range(rng.randrange(2, 6)):
+        ops.append(rng.choice([("read", "caseA"), ("read", "caseB"), ("read", "caseC"), ("load", "caseA"), ("load", "caseB"), ("reset", "")]))
+    ops.append((rng.choice(["read", "load"]), rng.choice(["caseA", "caseB", "caseC"])))
+    return {"kind": "session", "files": files, "expect": expect, "ops": ops}
+
+
 def oracle(case: dict):
+    if case.get("kind") == "session":
+        return session_oracle(case)
     if case.get("kind") == "termination":
         return termination_probe(case)
     if case.get("kind") == "read-scope":
@@ -465,6 +516,10 @@ def _retype(exp, nodes, x, json_declared=frozenset()):
 
 
 def shrink(case):
+    if case.get("kind") == "session":
+        for i in range(len(case["ops"]) - 1):
+            yield dict(case, ops=case["ops"][:i] + case["ops"][i + 1:])
+        return
     if case.get("kind") in ("termination", "read-scope"):
         return
     nodes = case["nodes"]
@@ -538,6 +593,13 @@ def run(ctx):
             continue
         c = mk_case(rng, nodes)
         cases.append((c, feats))
+    # sessions: several case files over one included file that has expressions of its own, read / load / reset in one process
+    for i in range(ctx.n(40, 800)):
+        c = session_case(rng)
+        r = oracle(c)
+        if r:
+            ctx.oracle_fail(c, r[0], r[1])
+        ctx.count(("ss", repr(c["ops"]), repr(c["files"])), True, "session")
     if ctx.tier == "thorough":
         for _ in range(150):
             nodes, feats = gen_graph(rng)
